@@ -752,7 +752,8 @@ def check_cases(ctx, binp, cases, obs, cand_done):
 def run(ctx):
     ctx.rule = ("conversations: corpus (past failures, TestChatPrompt's table), every role sequence over {system,user,assistant} up to length %d, "
                 "random conversations (roles incl. unknown ones, bodies of 0-20 words with unique begin/end markers, 0-3 images per message, "
-                "0-4 [img] placeholders, repeated pictures, empty contents) x templates (chatml.gotmpl, TestChatPrompt's, and four families with random "
+                "0-4 [img] placeholders, repeated pictures, empty contents, assistant tool calls and tool results), tool-call dialogues, sequences in one "
+                "process (a chat whose tokenizer fails on call k / whose template fails mid-rendering / a big chat, then chats that fit exactly) x templates (chatml.gotmpl, TestChatPrompt's, and four families with random "
                 "literal texts) x tokenizers (fields, 1/4/7 bytes) x model kinds (clip/mllama, projector nil/empty/set); for every conversation the "
                 "context lengths are picked around the measured candidate lengths so that the scan stops at every position; non-trivial = more than "
                 "one message; distinct = canonical JSON of template+conversation+parameters" % (3 if ctx.quick() else 4))
